@@ -209,3 +209,78 @@ def replay_c12(prop, job, tests, out, save):
             out.violations.append(path)
             return
     out.inconclusive.append(f"{job.name}: FAILED but the counterexample does not reproduce through the real decimal parser (stub or oracle problem)")
+
+
+# ------------------------------------------------------------------------------------ C10
+def _metric(c1, c2):
+    R = c1[0] + c2[0]
+    return (1024 + R) * (c1[0] - c2[0]) ** 2 + 1024 * (c1[1] - c2[1]) ** 2 + (1534 - R) * (c1[2] - c2[2]) ** 2
+
+
+def _xterm_table():
+    cube = [0, 95, 135, 175, 215, 255]
+    t = {}
+    for i in range(16, 232):
+        j = i - 16
+        t[i] = (cube[j // 36], cube[(j // 6) % 6], cube[j % 6])
+    for i in range(232, 256):
+        v = 8 + 10 * (i - 232)
+        t[i] = (v, v, v)
+    return t
+
+
+def replay_c10(prop, job, tests, out, save):
+    """K2 harnesses stub the metric by a table, which has no native counterpart.  A failing
+    table is turned into a concrete palette that realises the same ordering under the REAL
+    metric (grey levels seen from black: distance is strictly monotone in the level), and the
+    real conversion is compared with the lowest-index-of-minimal-distance specification."""
+    import random
+
+    bindir = build_helpers(prop)
+    exe = str(bindir / "c10_native")
+
+    def ask(lines):
+        r = subprocess.run([exe], input="\n".join(lines) + "\n", capture_output=True, text=True, timeout=300)
+        return [int(x) for x in r.stdout.split()]
+
+    if "xterm_scan" in job.name:
+        # no table can be imposed on the fixed 240 colours: search concrete colours instead
+        tab = _xterm_table()
+        rnd = random.Random(12345)
+        cols = [(r, g, b) for r in (0, 47, 48, 95, 115, 135, 255) for g in (0, 47, 95, 96, 175, 255) for b in (0, 8, 13, 95, 238, 255)]
+        cols += list(tab.values())
+        cols += [(rnd.randrange(256), rnd.randrange(256), rnd.randrange(256)) for _ in range(20000)]
+        got = ask([f"xterm {r} {g} {b}" for r, g, b in cols])
+        for c, gi in zip(cols, got):
+            best = min(range(16, 256), key=lambda i: (_metric(c, tab[i]), i))
+            if gi != best:
+                path = save(prop, job, tests[0], extra={"colour": c, "real_index": gi, "expected_index": best})
+                runner.log(f"  violation of {job.name} reproduced natively: rgb_to_xterm{c} = {gi}, nearest (lowest index) is {best}")
+                out.violations.append(path)
+                return
+        out.inconclusive.append(f"{job.name}: FAILED for some distance table, but no concrete colour among 20k+ reproduces it natively")
+        return
+    for t in tests[:3]:
+        vals = [v[0] if len(v) == 1 else int.from_bytes(bytes(v), "little") for v in runner.decode_values(t["code"])]
+        if "palette_scan" in job.name:
+            # q (3 values), t[16], tags[16]
+            if len(vals) < 35:
+                continue
+            table, tags = vals[3:19], [x % 16 for x in vals[19:35]]
+            key = [table[tags[i]] for i in range(16)]
+        else:
+            # xterm_to_ansi: i, t[16]; palette tagged by index
+            if len(vals) < 17:
+                continue
+            key = vals[1:17]
+        levels = sorted(set(key))
+        greys = [10 * (levels.index(k) + 1) for k in key]
+        pal = " ".join(f"{g} {g} {g}" for g in greys)
+        real = ask([f"ansi 0 0 0 {pal}"])
+        want = min(range(16), key=lambda i: (_metric((0, 0, 0), (greys[i],) * 3), i))
+        if real and real[0] != want:
+            path = save(prop, job, t, extra={"query": [0, 0, 0], "palette_greys": greys, "real_index": real[0], "expected_index": want})
+            runner.log(f"  counterexample for {job.name} reproduced natively: palette greys {greys}, colour (0,0,0): real {real[0]}, lowest index of minimal distance {want}")
+            out.violations.append(path)
+            return
+    out.inconclusive.append(f"{job.name}: FAILED but the realised palette does not reproduce it natively (stub or oracle problem)")
